@@ -54,7 +54,7 @@ def confirm(sid):
 def detect(sid, pids, tier="quick"):
     """runs the checks against a scratch worktree of /repo HEAD with the change applied (VERIF_REPO), so that /repo
     itself is never left modified; equivalent to `git -C /repo apply` + check + `git -C /repo checkout -- .`"""
-    d = os.path.join(V, "seeded", sid); m = load(sid); wt = "/tmp/detect_" + sid
+    d = os.path.join(V, "seeded", sid); m = load(sid); wt = "/tmp/detect_" + sid + os.environ.get("DETECT_SUFFIX", "")
     sh("git -C /repo worktree remove --force %s" % wt)
     sh("git -C /repo worktree add -q %s HEAD" % wt)
     rc, o = sh("git apply %s/patch.diff" % d, cwd=wt)
